@@ -27,7 +27,9 @@ private name is matched, so renaming, inlining, extracting or merging helpers ca
               own* stream's last timestamp (and on no other stream's); a stale outcome leaves that
               stream's flag false and the other untouched, a late event changes no flag; every path that
               changes a flag or the block re-evaluates the status afterwards; the select loop sits in a
-              try absorbing Exception inside an endless loop that nothing leaves.
+              try absorbing Exception inside an endless loop that nothing leaves; every selected source stays
+              armed: on no path (nor before the loop) is a source stopped / closed (select() drops an ended
+              receiver for good), re-armed with arguments, or its stream / timer object replaced.
   C16.CHANGE  a path sends iff it stored a new status (once, store first); the payload is
               ComponentStatus(component_id=battery id, value=the stored status); a status is stored only
               after it was compared with `_last_status` and found different.
@@ -41,6 +43,10 @@ private name is matched, so renaming, inlining, extracting or merging helpers ca
               UNCERTAIN, and WORKING only when is_blocked() was false or the recovery from NOT_WORKING
               cleared the block; uncertain components are returned exactly when the working
               intersection is empty.
+  C16.WIRE    construction sites of the trackers: every parameter gets the owner's value of the same role; the
+              tracker uses the two durations for what they are; the set-power outcome channel is lossless:
+              each tracker gets its own, unwrapped `new_receiver()` (made per construction, not shared) of the
+              very Broadcast the owner publishes SetPowerResult on, with no `limit` below the default (50).
   C16.POOL    the pool tracker's status loop (found by role; what consumers see): for every status
               message and every path consistent with a status value (the enum is closed), the reported
               component ends in `working` only for WORKING, in `uncertain` only for UNCERTAIN and in
@@ -281,6 +287,7 @@ class Loop:
             raise AnalysisError(f"{fn.qual}: cannot be interpreted path by path ({exc})") from exc
         if not self.paths:
             raise AnalysisError(f"{fn.qual}: the select loop has no normal path")
+        self.entry_events = list(entry.events)  # what ran before the loop was entered (receivers fetched, aliases)
         blind = sorted({c for p in self.paths for c in ex.opaque_private_calls(p)})
         if blind:
             raise AnalysisError(f"{fn.qual}: cannot see through {blind} (not interpretable path by path)")
@@ -481,6 +488,13 @@ def check_safe(run: Run, prog: Program) -> None:  # noqa: C901
               "failure doubles a stale back-off", node=rn.node, file=rn.file, path=wit(bad))
 
 
+# operations on a frequenz.channels receiver / timer (library facts, frozen): these end it — its ready() returns
+# False from then on, and select() never waits again on a receiver that reported so
+_ENDS_A_RECEIVER = {"stop", "close", "aclose", "cancel"}
+_REARMS = {"reset"}  # Timer.reset(): restart the period (plain form only: arguments change interval / delay)
+_PURE_ON_RECEIVER = {"filter", "map", "triggered", "is_running", "interval", "missed_tick_policy"}
+
+
 def check_timer(run: Run, prog: Program) -> None:  # noqa: C901
     lp = loop_of(prog)
     rn = lp.fn
@@ -545,6 +559,39 @@ def check_timer(run: Run, prog: Program) -> None:  # noqa: C901
                   "a branch that may change the health flags or the block returns to the select loop without "
                   "re-evaluating the status", node=rn.node, file=rn.file, path=wit(bad),
                   instance=f"{rn.qual}: {source} reaches the status evaluation")
+    # every source stays armed for the life of the tracker: select() drops a receiver whose ready() returned False
+    # (a stopped timer, a closed receiver) and never waits on it again — a later reset() re-arms a timer nobody
+    # listens to — and it keeps waiting on the *objects* it was started with, so replacing one detaches it as well
+    for source, arg in zip(lp.sources, lp.sel_args):
+        ended = rebound = odd = None
+        for where, events, p in [("before the loop is entered", lp.entry_events, None)] + \
+                [("on a path of the loop", p.events, p) for p in lp.paths]:
+            for e in events:
+                if e[0] == "call" and isinstance(e[2].func, ast.Attribute) and source_of(e[2].func.value) == source:
+                    op = e[2].func.attr
+                    if op in _ENDS_A_RECEIVER:
+                        ended = ended or (e[1], where, p)
+                    elif op in _REARMS and (e[2].args or e[2].keywords):
+                        odd = odd or (e[1], where, p)
+                    elif op not in _REARMS and op not in _PURE_ON_RECEIVER:
+                        raise AnalysisError(f"{rn.qual}: cannot tell what `{e[1]}` does to a source the select loop waits on")
+                elif e[0] == "write" and p is not None and (text(arg) == e[1] or text(arg).startswith(e[1] + ".")):
+                    rebound = rebound or (f"{e[1]} = {text(e[2])}", where, p)
+        hit = ended or rebound or odd
+        what = {"data": "silence or a fault of that stream", "timer": "a later silence of that stream",
+                "result": "a failed power command"}[source.split(":")[0]]
+        detail = "" if hit is None else (
+            f"`{hit[0]}` is executed {hit[1]}: " + (
+                "that ends the receiver, and select() drops an ended receiver for good (a timer's reset() by the next "
+                "message re-arms a timer the loop no longer waits on)" if hit is ended else
+                "the loop keeps waiting on the object it was started with, the new one is never selected" if hit is rebound
+                else "the timer is re-armed with arguments, i.e. not with the period it was built with (max_data_age)") +
+            f" — from then on {what} is never noticed and the battery keeps its last status (WORKING).  The same holds "
+            "for stop()/close() of any selected source on any path — in a handler, in the `already marked` branch of a "
+            "timer handler, after a faulty message — and for replacing a stream / timer object while the loop runs")
+        run.check(hit is None, "C16.TIMER", rn.qual, f"{source}: stays armed (never stopped, closed or replaced)",
+                  detail, node=rn.node, file=rn.file, path=wit(hit[2]) if hit else [],
+                  instance=f"{rn.qual}: {source} stays armed")
     # the tracker stays alive: the select loop sits in a `try` that absorbs Exception inside an endless loop
     # that nothing leaves
     run.check(_kept_alive(lp.chain), "C16.TIMER", rn.qual, "select loop restarted after an unexpected error",
@@ -928,6 +975,193 @@ class Provenance:
         return None
 
 
+# ------------------------------------------------------------------------------ the set-power outcome channel
+BROADCAST_DEFAULT_LIMIT = 50  # frequenz.channels.Broadcast.new_receiver(limit=50): library fact, frozen
+_LOOPS = (ast.For, ast.AsyncFor, ast.While, ast.ListComp, ast.SetComp, ast.DictComp, ast.GeneratorExp)
+
+
+def _loops_around(root: ast.AST, target: ast.AST) -> list[int] | None:
+    """The loops / comprehensions of `root` that enclose `target` (outermost first); None if it is not in there."""
+    def walk(n: ast.AST, acc: list[int]) -> list[int] | None:
+        if n is target:
+            return acc
+        nxt = acc + [id(n)] if isinstance(n, _LOOPS) else acc
+        for c in ast.iter_child_nodes(n):
+            got = walk(c, nxt)
+            if got is not None:
+                return got
+        return None
+    return walk(root, [])
+
+
+class Origin:
+    """Where a value handed to a constructor comes from, and whether it is made anew for each construction:
+    followed through single-assignment locals, parameters of private methods (every call site must pass the same
+    thing) and argument-less private helpers that only bind locals and return an expression; `self.<attr>` is looked up in the
+    constructor (written once, there).  `shared` becomes true when a hop is evaluated outside a loop that encloses
+    its use (one value for all iterations)."""
+
+    def __init__(self, prog: Program, cls: Any) -> None:
+        self.prog, self.cls = prog, cls
+
+    def follow(self, e: ast.AST, fn: FuncInfo, anchor: ast.AST, depth: int = 0) -> tuple[ast.AST, FuncInfo, bool] | None:
+        from ..engine.terms import single_defs
+        shared = False
+        while True:
+            depth += 1
+            if depth > 8:
+                return None
+            if isinstance(e, ast.Name):
+                if e.id in fn.params[1:] and fn.name != "__init__":
+                    sites = [(m, c) for m in self.cls.methods.values() for c in ast.walk(m.node)
+                             if isinstance(c, ast.Call) and isinstance(c.func, ast.Attribute) and u(c.func.value) == "self"
+                             and c.func.attr == fn.name]
+                    got = []
+                    for m, c in sites:
+                        b = _bind_site(c, fn.params[1:])
+                        r = self.follow(b[e.id], m, c, depth) if b is not None and e.id in b else None
+                        if r is None:
+                            return None
+                        got.append(r)
+                    if not got or len({u(r[0]) for r in got}) != 1:
+                        return None
+                    return got[0][0], got[0][1], shared or any(r[2] for r in got)
+                d = single_defs(fn.node, [e.id])
+                if e.id not in d:
+                    return None
+                la, ld = _loops_around(fn.node, anchor), _loops_around(fn.node, d[e.id])
+                if la is None or ld is None or ld != la[:len(ld)]:
+                    return None
+                shared = shared or len(ld) < len(la)
+                e = anchor = d[e.id]
+                continue
+            if isinstance(e, ast.Call) and isinstance(e.func, ast.Attribute) and u(e.func.value) == "self" \
+                    and e.func.attr.startswith("_") and not e.args and not e.keywords:
+                target = self.prog.resolve_method(self.cls, e.func.attr)
+                body = [b for b in target.node.body if not (isinstance(b, ast.Expr) and isinstance(b.value, ast.Constant))] \
+                    if target is not None and not target.is_async else []
+                if body and isinstance(body[-1], ast.Return) and body[-1].value is not None and all(
+                        isinstance(b, (ast.Assign, ast.AnnAssign)) and all(
+                            isinstance(t, ast.Name) for t in (b.targets if isinstance(b, ast.Assign) else [b.target]))
+                        for b in body[:-1]):
+                    fn, e = target, body[-1].value
+                    anchor = e
+                    continue
+            return e, fn, shared
+
+    def attr_def(self, e: ast.AST) -> tuple[ast.AST, FuncInfo] | None:
+        """The value `self.<attr>` gets in the constructor, if that is its only write in the class."""
+        init = self.cls.methods.get("__init__")
+        if not (isinstance(e, ast.Attribute) and u(e.value) == "self") or init is None:
+            return None
+        writes = [(m, n) for m in self.cls.methods.values() for n in ast.walk(m.node)
+                  if isinstance(n, (ast.Assign, ast.AnnAssign, ast.AugAssign))
+                  for t in (n.targets if isinstance(n, ast.Assign) else [n.target]) if u(t) == u(e)]
+        if len(writes) != 1 or writes[0][0] is not init or isinstance(writes[0][1], ast.AugAssign) or writes[0][1].value is None:
+            return None
+        return writes[0][1].value, init
+
+    def channel_of(self, e: ast.AST, fn: FuncInfo, anchor: ast.AST, maker: str) -> tuple[str, ast.Call, bool] | None:
+        """For a value that is `<channel>.<maker>(...)` (maker: new_receiver / new_sender), possibly kept in a local or
+        in an attribute set in the constructor: (the channel as written — `self.<attr>` —, the making call, shared)."""
+        got = self.follow(e, fn, anchor)
+        if got is None:
+            return None
+        e, fn, shared = got
+        if isinstance(e, ast.Attribute) and u(e.value) == "self":
+            d = self.attr_def(e)
+            got = self.follow(d[0], d[1], d[0]) if d is not None else None
+            if got is None:
+                return None
+            e, fn, shared = got[0], got[1], True  # made once, in the constructor
+        if not (isinstance(e, ast.Call) and isinstance(e.func, ast.Attribute) and e.func.attr == maker):
+            return None
+        ch = self.follow(e.func.value, fn, e)
+        if ch is None or not (isinstance(ch[0], ast.Attribute) and u(ch[0].value) == "self"):
+            return None
+        return u(ch[0]), e, shared
+
+
+def _outcome_param(prog: Program, callee: Any) -> str | None:
+    """The constructor parameter through which a tracker receives the set-power outcomes: annotated
+    `Receiver[SetPowerResult]` (found by its type, not its name)."""
+    init = prog.resolve_method(callee, "__init__")
+    if init is None:
+        return None
+    a = init.node.args
+    hits = [x.arg for x in a.posonlyargs + a.args + a.kwonlyargs
+            if x.annotation is not None and "SetPowerResult" in u(x.annotation) and "Receiver" in u(x.annotation)]
+    return hits[0] if len(hits) == 1 else None
+
+
+def _check_outcome_channel(run: Run, prog: Program, owner: Any, fn: FuncInfo, call: ast.Call, callee: Any,  # noqa: C901
+                           bound: dict[str, ast.AST]) -> None:
+    """"After a failed power command ..." holds for every schedule of outcomes only if every outcome the owner
+    publishes reaches every tracker: each tracker gets its *own* receiver, made by `new_receiver()` of the very
+    Broadcast channel the owner sends the SetPowerResult on, with at least the channel's default buffer, and not
+    wrapped in anything that drops or rewrites outcomes."""
+    rp = _outcome_param(prog, callee)
+    if rp is None:
+        return
+    site = f"{fn.qual} -> {callee.name}"
+    if rp not in bound:
+        raise AnalysisError(f"{fn.qual}: `{first_line_of(call)}` gives the tracker no set-power result receiver")
+    org = Origin(prog, owner)
+    arg = bound[rp]
+    # the outcomes' way in: the method of the owner that builds a SetPowerResult and sends it
+    senders = []
+    for m in owner.methods.values():
+        for c in [n for n in ast.walk(m.node) if isinstance(n, ast.Call) and isinstance(n.func, ast.Attribute) and n.func.attr == "send"
+                  and len(n.args) == 1 and not n.keywords]:
+            payload = org.follow(c.args[0], m, c)
+            if payload is not None and isinstance(payload[0], ast.Call) and u(payload[0].func).split(".")[-1] == "SetPowerResult":
+                senders.append(org.channel_of(c.func.value, m, c, "new_sender"))
+    if not senders or None in senders or len({s_[0] for s_ in senders}) != 1:  # type: ignore[index]
+        raise AnalysisError(f"{owner.qual}: cannot tell on which channel the set-power results are published")
+    out_channel = senders[0][0]  # type: ignore[index]
+    made = org.channel_of(arg, fn, call, "new_receiver")
+    plain = org.follow(arg, fn, call)
+    wrapped = plain is not None and isinstance(plain[0], ast.Call) and isinstance(plain[0].func, ast.Attribute) \
+        and plain[0].func.attr != "new_receiver" and any(
+            isinstance(n, ast.Call) and isinstance(n.func, ast.Attribute) and n.func.attr == "new_receiver" for n in ast.walk(plain[0]))
+    if made is None and not wrapped:
+        raise AnalysisError(f"{fn.qual}: cannot tell where the set-power result receiver `{u(arg)}` of {callee.name} comes from")
+    shown = u(plain[0]) if plain is not None else u(arg)
+    ok = made is not None and made[0] == out_channel and not made[2]
+    why = (f"`{shown}` is not a plain receiver of the outcome channel: whatever wraps it (filter / map / ...) decides which "
+           "outcomes the tracker sees" if made is None else
+           f"`{shown}` listens to {made[0]}, the outcomes are published on {out_channel}: no outcome ever arrives"
+           if made[0] != out_channel else
+           f"`{shown}` is made once and handed to every tracker: each outcome is consumed by only one of them")
+    run.check(ok, "C16.WIRE", fn.qual, f"{callee.name}({rp}=<own new_receiver() of the outcome channel>)",
+              f"constructing {callee.name}: {why} — a failed power command is then not seen by the battery's tracker, the "
+              "battery stays WORKING, is never reported uncertain and the back-off never starts (a lost success never "
+              "unblocks).  Every tracker needs its own, unfiltered receiver of the channel update_status() sends on",
+              node=call, file=fn.file, instance=f"{site}: own receiver of the outcome channel")
+    if made is None:
+        return
+    d = org.attr_def(parse_expr(made[0]))
+    ctor = d[0] if d is not None else None
+    is_bc = isinstance(ctor, ast.Call) and u(ctor.func.value if isinstance(ctor.func, ast.Subscript) else ctor.func).split(".")[-1] == "Broadcast"
+    if not is_bc:
+        raise AnalysisError(f"{owner.qual}: {made[0]} is not (visibly) a Broadcast channel made in the constructor")
+    mk = made[1]
+    if mk.args or any(k.arg is None for k in mk.keywords):
+        raise AnalysisError(f"{fn.qual}: cannot read the arguments of `{u(mk)}`")
+    limit = first([k.value for k in mk.keywords if k.arg == "limit"])
+    if limit is not None and not (isinstance(limit, ast.Constant) and isinstance(limit.value, int)):
+        raise AnalysisError(f"{fn.qual}: the buffer size in `{u(mk)}` is not a literal")
+    run.check(limit is None or limit.value >= BROADCAST_DEFAULT_LIMIT, "C16.WIRE", fn.qual,
+              f"{callee.name}({rp}=...): the receiver keeps (at least) the channel's default buffer",
+              f"constructing {callee.name}: `{u(mk)}` shrinks the tracker's buffer of set-power results to "
+              f"{u(limit) if limit is not None else '?'} (default {BROADCAST_DEFAULT_LIMIT}); a full Broadcast receiver drops "
+              "its OLDEST message and Broadcast.send() does not yield to the tracker task, so of outcomes published "
+              "back-to-back the earlier ones are lost: a failure followed by an outcome that does not mention the battery "
+              "leaves it WORKING (never uncertain, no back-off), a lost success never unblocks.  Any `limit` below the "
+              "default — 'only the latest outcome matters' — is the same defect", node=mk, file=fn.file,
+              instance=f"{site}: outcome receiver buffer")
+
+
 def check_wiring(run: Run, prog: Program) -> None:  # noqa: C901
     """Every construction site of a component status tracker (per-component or pool) hands each constructor
     parameter the owner's value of the same role, keyword or positional; the battery tracker uses the two
@@ -971,6 +1205,7 @@ def check_wiring(run: Run, prog: Program) -> None:  # noqa: C901
                 n_sites += 1
                 if family(owner):
                     run.analysed(fn.qual)
+                _check_outcome_channel(run, prog, owner, fn, call, callee, bound)
                 own = _ctor_params(prog, owner) or []
                 shared = [p for p in params if p in own]  # type: ignore[union-attr]
                 crossed = [(p, prov.of(a, fn)) for p, a in bound.items()
@@ -1105,6 +1340,21 @@ def located_controls(prog: Program) -> list[tuple[str, str, str, str, str]]:
             cap = [a for a in args if prov.of(a, fn) == "max_blocking_duration"]
             if len(age) == 1 and len(cap) == 1:
                 out.append(_control_at("the trackers get the blocking cap as data-age limit", pool.module, age[0], u(cap[0]), "C16.WIRE"))
+    # a timer handler that also stops the timer once the stream is marked (placed at the statement that clears a flag)
+    hit = first([s_ for s_ in stmts(tr) if isinstance(s_, ast.Assign) and isinstance(s_.targets[0], ast.Attribute)
+                 and s_.targets[0].attr == FLAG and _bool_const(s_.value) is False])
+    if hit is not None:
+        owner_ = u(hit.targets[0].value)  # type: ignore[attr-defined]
+        out.append(_control_at("the data timer is stopped once its stream is marked", tr.module, hit,
+                               f"{u(hit)}; {owner_}.data_recv_timer.stop()", "C16.TIMER"))
+    # the outcome channel: the receiver a tracker is given (the `new_receiver()` of a channel kept in an attribute)
+    rx = first([n for n in ast.walk(pool.node) if isinstance(n, ast.Call) and isinstance(n.func, ast.Attribute)
+                and n.func.attr == "new_receiver" and u(n.func.value).startswith("self.") and not n.args and not n.keywords])
+    if rx is not None:
+        out.append(_control_at("each tracker buffers a single set-power result", pool.module, rx,
+                               f"{u(rx.func)}(limit=1)", "C16.WIRE"))
+        out.append(_control_at("the trackers only see outcomes with failures", pool.module, rx,
+                               f"{u(rx)}.filter(lambda r: bool(r.failed))", "C16.WIRE"))
     init = tr.methods.get("__init__")
     hit = first([s_ for s_ in stmts(tr) if isinstance(s_, (ast.Assign, ast.AnnAssign)) and s_.value is not None
                  and u(s_.targets[0] if isinstance(s_, ast.Assign) else s_.target) == "self._max_data_age"]) if init else None
@@ -1129,7 +1379,7 @@ def check(run: Run, prog: Program, tier: str) -> str:
              "operational-state sets frozen")
     run.rule("C16.TIMER", "messages record timestamp + reset their timer; events are dispatched to their own stream; each "
              "timer branch judges and clears its own stream; every state change is followed by a status evaluation; "
-             "the loop is kept alive")
+             "the loop is kept alive; no selected source is ever stopped, closed or replaced")
     run.rule("C16.CHANGE", "a notification is sent iff a new status was stored, carries it, and it was found different first")
     run.rule("C16.BLOCK", "back-off: min on first, unchanged while blocked, min(2*last, max) when expired; "
              "unblock on every success; block on failure unless NOT_WORKING; uncertain only as fallback")
@@ -1137,12 +1387,13 @@ def check(run: Run, prog: Program, tier: str) -> str:
              "WORKING, in `uncertain` only for UNCERTAIN, in neither for NOT_WORKING, on every path; every update is sent")
     run.rule("C16.WIRE", "every construction site of a status tracker gives each constructor parameter the owner's value "
              "of the same role (keyword or positional); the battery tracker uses max_data_age for staleness and its "
-             "timers and max_blocking_duration as the back-off cap")
+             "timers and max_blocking_duration as the back-off cap; each tracker gets its own unwrapped receiver of the "
+             "channel the set-power results are published on, with at least the default buffer")
     run_rules(run, prog)
     run.floor("C16.POOL", 4)
-    run.floor("C16.WIRE", 9)
+    run.floor("C16.WIRE", 11)
     run.floor("C16.SAFE", 14)
-    run.floor("C16.TIMER", 15)
+    run.floor("C16.TIMER", 20)
     run.floor("C16.CHANGE", 3)
     run.floor("C16.BLOCK", 13)
     from ..engine.controls import run_controls
